@@ -53,7 +53,45 @@ func genCase(t *rapid.T) Case {
 	for i := 0; i < k; i++ {
 		c.Texts = append(c.Texts, tv.GenJSON(t, c.Desc, tv.JSONCfg{Nulls: true, Extra: true, AnyLen: c.AnyLen, PresentPc: rapid.SampledFrom([]int{40, 60, 90}).Draw(t, "present")}))
 	}
+	if rapid.IntRange(0, 4).Draw(t, "emptied") == 0 {
+		// T1, T1 with every array emptied, T2...: slices come back with length
+		// zero and their old capacity (stale elements behind the length).
+		if e := emptyArrays(c.Texts[0]); e != nil {
+			c.Texts = append([][]byte{c.Texts[0], e}, c.Texts[1:]...)
+		}
+	}
 	return c
+}
+
+// emptyArrays rewrites every array of a text as [] (nil if the text does not parse).
+func emptyArrays(in []byte) []byte {
+	n, err := ref.Parse(in, popt)
+	if err != nil {
+		return nil
+	}
+	var out []byte
+	var walk func(n *ref.Node)
+	walk = func(n *ref.Node) {
+		switch n.Kind {
+		case '[':
+			out = append(out, '[', ']')
+		case '{':
+			out = append(out, '{')
+			for i, m := range n.Members {
+				if i > 0 {
+					out = append(out, ',')
+				}
+				out = append(out, in[m.Name.Start:m.Name.End]...)
+				out = append(out, ':')
+				walk(m.Value)
+			}
+			out = append(out, '}')
+		default:
+			out = append(out, in[n.Start:n.End]...)
+		}
+	}
+	walk(n)
+	return out
 }
 
 // stripStringOpt removes `string` and case options the text generator does not model.
